@@ -158,6 +158,7 @@ def run(chk, repo, tier):
     run_v6(chk, repo)
     run_v7_v9(chk, repo)
     run_v10_v12(chk, repo)
+    run_v13(chk, repo)
 
 
 def canon_hosts(mc):
@@ -504,3 +505,89 @@ def run_v10_v12(chk, repo):
                                   'from the initial estimates')
     if n12 == 0:
         raise AnalysisError('V12: matrix product returned by _descale_matrix not found')
+
+
+def run_v13(chk, repo):
+    """V13: JointNormalDistribution.__getitem__ returns the sub-block of the selected variables: the tuple of names and the
+    tuple of positions it slices mean and variance with must list the same variables in the same order, i.e. both come out of
+    one iteration (or one is computed element by element from the other)"""
+    V13 = chk.rule('V13', 'JointNormalDistribution.__getitem__: the names of the sub-distribution and the positions used to slice '
+                          'mean and variance come from the same iteration', floor=2)
+    dm = repo.module('pharmpy.model.distributions.symbolic')
+    jc = dm.classes.get('JointNormalDistribution')
+    gi = jc.methods.get('__getitem__') if jc else None
+    if gi is None:
+        raise AnalysisError('V13: JointNormalDistribution.__getitem__ not found')
+    fn = gi.node
+    # the two variables: first argument of the JointNormalDistribution(..) that is returned, and the subscript of self._mean
+    ctor = [c for c in ast.walk(fn) if isinstance(c, ast.Call) and dotted(c.func) in ('JointNormalDistribution', 'type(self)',
+                                                                                      'self.__class__') and c.args]
+    N = next((c.args[0].id for c in ctor if isinstance(c.args[0], ast.Name)), None)
+    I = None
+    for sub in ast.walk(fn):
+        if isinstance(sub, ast.Subscript) and unparse(sub.value) in ('self._mean', 'self._variance'):
+            nm = [x.id for x in ast.walk(sub.slice) if isinstance(x, ast.Name)]
+            if nm:
+                I = nm[0]
+                break
+    if N is None or I is None:
+        raise AnalysisError(f'V13: names / positions variables not found ({N}, {I})')
+
+    def blocks(node):
+        for n in ast.walk(node):
+            for fld in ('body', 'orelse', 'finalbody'):
+                b = getattr(n, fld, None)
+                if isinstance(b, list) and b and isinstance(b[0], ast.stmt):
+                    yield b
+
+    def source(block, var, value):
+        """how the sequence bound to var is produced"""
+        e = value
+        while isinstance(e, ast.Call) and dotted(e.func) in ('tuple', 'list') and len(e.args) == 1:
+            e = e.args[0]
+        if isinstance(e, ast.Tuple) and len(e.elts) == 1:
+            return ('single',)
+        if isinstance(e, ast.Call) and dotted(e.func) == 'range':
+            return ('range',)
+        if isinstance(e, (ast.GeneratorExp, ast.ListComp)) and len(e.generators) == 1:
+            g = e.generators[0]
+            it = g.iter
+            if isinstance(it, ast.Call) and dotted(it.func) == 'enumerate' and it.args:
+                it = it.args[0]
+            other = N if var == I else I
+            if isinstance(it, ast.Name) and it.id == other:
+                return ('derived', other)
+            return ('comp', unparse(it), tuple(sorted(unparse(x) for x in g.ifs)))
+        if isinstance(e, ast.Name):
+            # a list filled by append in a loop of this block
+            for L in [x for st in block for x in ast.walk(st) if isinstance(x, ast.For)]:
+                apps = [c for c in ast.walk(L) if isinstance(c, ast.Call) and isinstance(c.func, ast.Attribute)
+                        and c.func.attr == 'append' and isinstance(c.func.value, ast.Name) and c.func.value.id == e.id]
+                if apps:
+                    holder = next((x for x in ast.walk(L) if isinstance(x, (ast.If, ast.For)) and any(
+                        isinstance(s_, ast.Expr) and s_.value is apps[0] for s_ in getattr(x, 'body', []))), L)
+                    return ('loop', id(L), id(holder))
+        return None
+
+    n = 0
+    for b in blocks(fn):
+        da = [s_ for s_ in b if isinstance(s_, ast.Assign) and len(s_.targets) == 1 and isinstance(s_.targets[0], ast.Name)]
+        dn = [s_ for s_ in da if s_.targets[0].id == N]
+        di = [s_ for s_ in da if s_.targets[0].id == I]
+        if not dn or not di or isinstance(di[-1].value, ast.Subscript):
+            continue
+        sn, si = source(b, N, dn[-1].value), source(b, I, di[-1].value)
+        if sn is None or si is None:
+            continue
+        n += 1
+        ok = sn == si or 'derived' in (sn[0], si[0]) or (sn[0] == 'single' and si[0] == 'single') \
+            or {sn[0], si[0]} <= {'single', 'range', 'derived'}
+        chk.instance(V13, f'{N} <- {sn[0]}, {I} <- {si[0]}: same iteration: {ok}')
+        if not ok:
+            chk.violation(V13, dm.rel, gi.qualname, f'{unparse(dn[-1])[:60]} / {unparse(di[-1])[:60]}',
+                          'the names and the positions of the selected variables are produced by two different iterations: for a '
+                          'selection that is not in block order they list the variables in different orders',
+                          line=di[-1].lineno,
+                          witness="dist[['ETA2', 'ETA1']] on a 3-variable block: var(ETA1) of the result is OMEGA(2,2)")
+    if n < 2:
+        raise AnalysisError(f'V13: only {n} branches with both names and positions recognised')
